@@ -26,6 +26,8 @@ struct World<S: Service> {
     max_borrow: usize,
     pub_labels: std::collections::HashSet<usize>,
     sub_labels: std::collections::HashSet<usize>,
+    /// `override_sample_preallocation` of every publisher of this world (10th token of `new`)
+    prealloc: Option<usize>,
 }
 
 struct SliceWorld<S: Service> {
@@ -83,7 +85,7 @@ fn mk<S: Service>(t: &[&str]) -> Result<World<S>, String> {
         .create()
         .map_err(|e| format!("err:service:{e:?}"))?;
     let node_dir = format!("{}", node.id().value());
-    Ok(World { node: Some(node), service: Some(service), prefix, node_dir, pubs: HashMap::new(), subs: HashMap::new(), loans: HashMap::new(), samples: HashMap::new(), pub_ids: HashMap::new(), max_borrow: n(t[6]).max(1), pub_labels: Default::default(), sub_labels: Default::default() })
+    Ok(World { node: Some(node), service: Some(service), prefix, node_dir, pubs: HashMap::new(), subs: HashMap::new(), loans: HashMap::new(), samples: HashMap::new(), pub_ids: HashMap::new(), max_borrow: n(t[6]).max(1), pub_labels: Default::default(), sub_labels: Default::default(), prealloc: t.get(9).map(|x| n(x)) })
 }
 
 fn mk_slice<S: Service>(t: &[&str]) -> Result<SliceWorld<S>, String> {
@@ -116,7 +118,9 @@ fn exec<S: Service>(w: &mut World<S>, t: &[&str]) -> String {
             // cpub <p> <max_loans>
             if w.pub_labels.contains(&n(t[1])) { "dup".to_string() } else {
             if w.service.is_none() { return "no-service".to_string(); }
-            match w.service.as_ref().unwrap().publisher_builder().max_loaned_samples(n(t[2])).backpressure_strategy(BackpressureStrategy::DiscardData).create() {
+            let mut b = w.service.as_ref().unwrap().publisher_builder().max_loaned_samples(n(t[2])).backpressure_strategy(BackpressureStrategy::DiscardData);
+            if let Some(k) = w.prealloc { b = b.override_sample_preallocation(move |_| k); }
+            match b.create() {
                 Ok(p) => {
                     w.pub_ids.insert(p.id().value(), n(t[1]));
                     w.pub_labels.insert(n(t[1]));
@@ -406,6 +410,23 @@ pub fn generate(a: &Args) -> Vec<Vec<String>> {
                     if rng.chance(35) { cur = (cur * 2).min(64); }
                     let len = if rng.chance(70) { cur } else { rng.range(1, cur) };
                     *l = format!("loans {} {len}", &l[5..]);
+                }
+            }
+        }
+        return cases;
+    }
+    if a.rest.iter().any(|x| x == "oom") && a.exhaustive == 0 {
+        // publishers with fewer chunks than the worst case (`override_sample_preallocation`): loans may fail for lack of
+        // memory, which must not change anything else (loan counter, reference counts)
+        let mut a2 = Args { mode: a.mode.clone(), seed: a.seed ^ 0x00e, cases: a.cases, len: a.len, exhaustive: 0, rest: a.rest.iter().filter(|x| *x != "oom").cloned().collect() };
+        if !a2.rest.iter().any(|x| x == "sat") { a2.rest.push("sat".into()); }
+        let mut rng = Rng::new(a.seed ^ 0x00e5);
+        let mut cases = generate(&a2);
+        for c in cases.iter_mut() {
+            for l in c.iter_mut() {
+                if l.starts_with("new ") {
+                    let pre = if rng.chance(15) { 0 } else { rng.range(1, 5) };
+                    *l = format!("{l} {pre}");
                 }
             }
         }
